@@ -106,6 +106,8 @@ contract(T, '_get_chunk_bounds', props=['C16'],
               ('sizes-nonnegative', 'all(arr_sizes[k] >= 0 for k in range(len(arr_sizes)))')],
     result='list[int]',
     locals={'b': 'list[int]'},
+    # stepping stone: extending b keeps every boundary found so far (the old elements stay at their indices)
+    cuts=[('b.extend(ch)', 'extend-keeps-earlier-boundaries', 'all(implies(k >= 1, any(b[j] == psum(arr_sizes, m) for j in range(len(b)))) for m in range(k + 1))')],
     loops={0: {'idx': 'k', 'invariant': [
         ('n-is-prefix-sum', 'n == psum(arr_sizes, k) and n >= 0 and 0 <= k and k <= len(arr_sizes)'),
         ('b-from-0-to-n', '(k == 0 and len(b) == 0) or (len(b) >= 1 and b[0] == 0 and b[len(b) - 1] == n)'),
